@@ -519,7 +519,9 @@ def run_check(tier, seed, t0):
             if total + len(evs) > budget:
                 break
             total += len(evs)
-            split.append({"id": len(split) + 1, "ev": evs, "src": t.get("src") or t.get("test")})
+            split.append({"id": len(split) + 1, "ev": evs, "src": t.get("src") or t.get("test"),
+                          # module-level singletons outlive the recording of one test
+                          "pre": evs[0]["p"].startswith("_DimensionType.")})
     n_streams = len(cache_traces)
     cache_traces = split
     # validate the cache event streams with TLC
